@@ -747,15 +747,16 @@ Proof.
   pose proof (next_run_mono (fst (step (run init es1) e1)) es2). lia.
 Qed.
 
-(* --- the defect: a failed BeginQuery leaves Threads_running incremented --- *)
+(* --- facts about ill-formed API histories (outside the call discipline): a BeginQuery that returns an error
+   has already incremented Threads_running --- *)
 Definition running_shown (s : state) : Z := Z.of_nat (length (filter is_query (processes s))).
 
-Lemma threads_running_refuted_unregistered :
+Lemma failed_begin_unregistered_outside_discipline :
   exists es, snd (step (run init es) (EBeginQ 2 7 1)) = OErrNotRegistered /\
              tr (run init (es ++ [EBeginQ 2 7 1])) <> running_shown (run init (es ++ [EBeginQ 2 7 1])).
 Proof. exists [EAddInc 1; EAddIns 1 5]. split; [reflexivity|]. vm_compute. discriminate. Qed.
 
-Lemma threads_running_refuted_pid_in_use :
+Lemma failed_begin_pid_in_use_outside_discipline :
   exists es, well_formed es /\ snd (step (run init es) (EBeginQ 2 7 1)) = OErrPidUsed /\
              tr (run init (es ++ [EBeginQ 2 7 1])) <> running_shown (run init (es ++ [EBeginQ 2 7 1])).
 Proof.
